@@ -9,7 +9,7 @@ import cfgs as C
 import fields as F
 import hist as H
 import props.cfgprops as P
-from core import Result, stable
+from core import Result, stable, guard
 
 RULE = ("random schemas placing SecureFields (aes / xor / best) at the root, in nested sub-configurations to depth 3, in config types (with and "
         "without a declared key file), in lists of configurations and in typed lists of secrets x histories of: key-file assignments to the root "
@@ -483,8 +483,77 @@ def new_session(ctx, res, case, spec, held, tmp, home):
         res.violate("C03:new-session-reload-differs", "a new session does not get the secrets back", dict(case, back=back))
 
 
+def rehome_stream(ctx, res, n):
+    """a configuration object that already belongs to one tree is assigned into another tree (two configurations alive at once, each
+    naming its own key file; or one tree, from a branch whose config type names a key file to a branch that names none): from then on
+    its secrets are stored under the key file of its nearest ancestor in the NEW place"""
+    import cincoconfig as cc
+    from cincoconfig.encryption import KeyFile
+    rng = ctx.rng
+    tmp = ctx.tmpdir()
+    for i in range(n):
+        keys = []
+        for j in range(3):
+            kp = os.path.join(tmp, "rh-%d-%d.key" % (i, j))
+            with open(kp, "wb") as fh:
+                fh.write(bytes(rng.getrandbits(8) for _ in range(32)))
+            keys.append(kp)
+        creds = cc.Schema()
+        creds.user = cc.StringField()
+        creds.password = cc.SecureField(method=rng.choice(["aes", "xor"]))
+        Creds = cc.make_type(creds, "Creds%d" % i)
+        Vault = cc.make_type((lambda v: (setattr(v, "creds", Creds), v)[1])(cc.Schema()), "Vault%d" % i, key_filename=keys[2])
+        s = cc.Schema()
+        s.db.creds = Creds
+        s.db.deep.creds = Creds
+        s.vault = Vault
+        s.plain.creds = Creds
+        secret = "rehomed-secret-%08x" % rng.getrandbits(32)
+        what = rng.choice(["other-tree", "other-tree-deep", "other-branch"])
+        a, b = s(), s()
+        a._key_filename, b._key_filename = keys[0], keys[1]
+        try:
+            if what == "other-tree":
+                b.db.creds.password = secret
+                a.db.creds = b.db.creds
+                path, want = "db.creds.password", keys[0]
+            elif what == "other-tree-deep":
+                b.db.deep.creds.password = secret
+                a.db.deep = b.db.deep
+                path, want = "db.deep.creds.password", keys[0]
+            else:
+                a.vault.creds.password = secret
+                a.plain.creds = a.vault.creds
+                path, want = "plain.creds.password", keys[0]
+            tree = a.to_tree()
+        except Exception as e:  # noqa
+            res.case(None, kind="rehome:raised-%s" % type(e).__name__)
+            continue
+        cur = tree
+        for q in path.split("."):
+            cur = cur[q]
+        case = {"stream": "rehome", "what": what, "path": path}
+        res.case(stable([what, i]), sample=case if i < 2 else None, kind="rehome:" + what)
+        plain_under = None
+        for kp in keys:
+            try:
+                with KeyFile(kp) as kf:
+                    import base64
+                    from cincoconfig.encryption import SecureValue
+                    txt = kf.decrypt(SecureValue(cur["method"], base64.b64decode(cur["ciphertext"])))
+                if txt == secret.encode():
+                    plain_under = kp
+                    break
+            except Exception:  # noqa
+                continue
+        if plain_under != want:
+            res.violate("C03:wrong-key:rehomed", "a secret of a configuration object assigned into another place is not stored under the key file of its nearest naming ancestor there",
+                        dict(case, stored_under=os.path.basename(plain_under) if plain_under else None, expected=os.path.basename(want)))
+
+
 def run(ctx, n_quick=150, n_thorough=4000):
     res = Result()
+    guard(res, "C03", rehome_stream, ctx, res, ctx.n(30, 800))
     tmp, _ = P.setup(ctx)
     home = os.environ["HOME"]
     reqs, pend, sessions = [], [], []
